@@ -271,6 +271,17 @@ def other_faults(chk, b, rng, tier, small_m, small, sz, d):
                            stdout=subprocess.PIPE, stderr=subprocess.PIPE)
         if p.returncode == 0 and os.path.exists(os.path.join(cl, "shallow")):
             cases.append(("shallow-clone", cl, argv, {}))
+    # shallow + linked worktree (the shallow file lives in the common directory)
+    shw = os.path.join(d, "shallow-wt-main")
+    shutil.copytree(small, shw)
+    with open(os.path.join(shw, "shallow"), "w") as f:
+        f.write(c0 + "\n")
+    wtp = os.path.join(d, "shallow-wt")
+    pw = subprocess.run([G.REAL_GIT, "--git-dir", shw, "worktree", "add", "--detach", "--no-checkout", wtp, c0], env=G.git_env(),
+                        stdout=subprocess.PIPE, stderr=subprocess.PIPE)
+    if pw.returncode == 0:
+        cases.append(("shallow-linked-worktree", wtp, argv, {}))
+        cases.append(("shallow-linked-worktree-root-only", wtp, argv + [c0 + "^{tree}"], {}))
     empty = os.path.join(d, "notarepo")
     os.makedirs(empty)
     cases.append(("absent-repository", empty, argv, {"GIT_CEILING_DIRECTORIES": d}))
